@@ -6,7 +6,7 @@ pub mod async_std {
         use crate::spec::*;
         use crate::shims::std::io;
         use crate::shims::std::path::PathArg;
-        pub use crate::shims::std::fs::{File, read, copy, remove_file, create_dir_all, DirBuilder, metadata, remove_dir_all};
+        pub use crate::shims::std::fs::{File, read, copy, remove_file, remove_dir, create_dir_all, DirBuilder, metadata, remove_dir_all};
         use crate::shims::std::fs::{OpenMode, file_buffered, file_pending};
         /// the runtime's OpenOptions: as std's, but the handle it opens BUFFERS writes in user
         /// space until `flush` (see `file_buffered` in shims/std_fs.rs)
@@ -52,7 +52,7 @@ pub mod async_std {
         }
     }
     pub mod io {
-        pub use crate::shims::std::io::BufReader;
+        pub use crate::shims::std::io::{BufReader, copy};
     }
     pub mod task {
         use vstd::prelude::*;
@@ -136,12 +136,12 @@ pub mod futures {
 // @FLAVOUR tokio
 pub mod tokio {
     pub mod fs {
-        pub use crate::shims::std::fs::{File, read, copy, remove_file, create_dir_all, DirBuilder, metadata, remove_dir_all};
+        pub use crate::shims::std::fs::{File, read, copy, remove_file, remove_dir, create_dir_all, DirBuilder, metadata, remove_dir_all};
         pub use crate::shims::async_std::fs::OpenOptions;
     }
     pub mod io {
         use vstd::prelude::*;
-        pub use crate::shims::std::io::{BufReader, Result};
+        pub use crate::shims::std::io::{BufReader, Result, copy};
         pub use crate::shims::futures::io::{AsyncRead, AsyncReadExt, AsyncBufReadExt, AsyncWrite, AsyncWriteExt};
         /// tokio::io::ReadBuf: a buffer of `cap` bytes whose first `filled.len()` bytes are filled
         #[verifier::external_body]
